@@ -62,7 +62,7 @@ Proof.
     cbn [andb orb].
     destruct (fd_required fd); cbn [negb andb] in Hd |- *.
     + rewrite !andb_false_r. reflexivity.
-    + rewrite Hd. apply orb_false_iff in Hd. destruct Hd as [_ Hed]. rewrite Hed. rewrite !andb_false_r. reflexivity.
+    + rewrite Hd. cbn [andb]. rewrite ?andb_false_r, ?orb_false_r. reflexivity.
 Qed.
 
 (* a serialized method the schema requires is never left out *)
